@@ -112,6 +112,7 @@ type Exec struct {
 	uniq            int
 	wantWitness     bool
 	tier            int
+	cross           *CrossState
 }
 
 func (x *Exec) isRepoPkg(path string) bool {
@@ -467,6 +468,7 @@ func (x *Exec) assert(c *sym.Term, label string) {
 	case solver.Unsat:
 		x.record("h")
 		x.res.Asserts[label]++
+		x.crossCheck(label, sym.Not(c))
 		return
 	case solver.Unknown:
 		// nonlinear integer arithmetic: try to prove the goal on the real
